@@ -376,7 +376,7 @@ def np_eval(prog, x):
             return getattr(np, prog[1])(arg)
         return getattr(arg, prog[1])()      # cot, sec, ... exist only as Bicomplex methods
     if tag == 'p':
-        return np_eval(prog[1], x) ** prog[2]
+        return np_eval(prog[1], x) ** exponent_form(prog[2], x)
     if tag == 'pw':
         return np_eval(prog[1], x) ** np_eval(prog[2], x)
     if tag == 'b':
@@ -402,6 +402,28 @@ def make_fun(prog):
         return np_eval(prog, x)
     f.prog = prog
     return f
+
+
+EXP_FORM = [None]     # how a constant exponent is handed to `**` by np_eval (None: the Python number itself)
+
+
+def exponent_form(r, x):
+    import numpy as np
+    f = EXP_FORM[0]
+    if f is None:
+        return r
+    if f == 'array0d':
+        return np.array(float(r))
+    if f == 'complex':
+        return complex(r, 0.0)
+    if f == 'float64':
+        return np.float64(r)
+    if f == 'fraction':
+        from fractions import Fraction
+        return Fraction(r)
+    if f == 'bicomplex':
+        return type(x)(float(r), 0.0)
+    raise KeyError(f)
 
 
 def show(prog):
